@@ -14,6 +14,7 @@ impl FromJsonMap for BiometricTemplate {
         m.iter()
             .filter_map(|(k, v)| {
                 k.strip_prefix("biometric_template_")
+                    .filter(|k| !k.is_empty())
                     .map(|k| Ok((k.to_string(), ByteStr::from_json(v)?)))
             })
             .collect::<Result<_, _>>()
